@@ -578,7 +578,9 @@ func (s *Server) receiveMessage(m Message) error {
 		if opt == nil {
 			return fmt.Errorf("create field message without options: %s/%s", obj.Index, obj.Field)
 		}
-		_, err := idx.createField(obj.Field, *opt)
+		// (with the index lock: the message arrives on its own goroutine,
+		// concurrently with local requests and other messages)
+		_, err := idx.createFieldIfNotExists(obj.Field, *opt)
 		if err != nil {
 			return err
 		}
